@@ -93,10 +93,10 @@ CHECKS = {
             "shapes and limits listed in the evidence", "§5 C41"),
     "C22": ("mc-store", MC, "explicit-state BFS (E3) over real store instructions in the in-process runtime, invariant after every successful instruction",
             "Two machines. (1) All interleavings to the stated depth of create/execute/close of deposits and withdrawals by owners, the keeper and a stranger, fee claims and keeper transfers, clock advances and feed re-publication over two markets sharing both vaults (one deposit swaps its long side along a path that ends in the deposit market itself), also from fabricated position-like start states (accrued fees, collateral close to the whole balance, backed collateral above the pools). (2) Real position orders (prepare/create/execute/close of market increase and decrease orders of two traders on both markets), market swap orders, shifts between the markets, liquidations (solvent and insolvent), fee claims, price sets and clock advances, from the empty world and from a state with both traders' positions open. After every successful instruction each market's recorded balances cover liquidity+impact+fees and collateral, the collateral-sum and open-interest pools equal the sums over the position accounts, and the markets sharing a vault do not record more than it holds.",
-            "svm-lite runtime trusted; ADL and GLV actions are not in this alphabet (C09 program part, C45)", "§10 C22"),
+            "svm-lite runtime trusted; thorough tier bounded by the 40 GB memory cap (order machine depth 5, two slot alphabets); ADL and GLV actions are not in this alphabet (C09 program part, C45)", "§10 C22"),
     "C23": ("mc-store", MC, "explicit-state BFS (E3) over real store instructions in the in-process runtime against the action-lifecycle protocol",
             "Same two explorations as C22 with the full actor alphabet (owner, keeper, stranger) plus a third machine for GLV deposits and withdrawals: the action-state transition relation (Pending->Completed/Cancelled exactly once, terminal absorbing) for deposits, withdrawals, shifts, position and swap orders and GLV actions, who may execute/close/liquidate in which state, escrow contents returned on close (input funds to the owner, outputs to the receiver, also when they differ), consumed escrow on completion, execution-fee and rent refunds, and untouched markets/vaults/positions/escrow after a cancelled execution (unreachable minimum output, unacceptable price, expired request) are checked on every transition.",
-            "ADL orders and GLV shifts are not under this relation; crafted account lists: one (a short-only deposit closed with the short mint in the unused long slot)", "§10 C23"),
+            "thorough tier bounded by the 40 GB memory cap (order machine depth 5, two slot alphabets); ADL orders and GLV shifts are not under this relation; crafted account lists: one (a short-only deposit closed with the short mint in the unused long slot)", "§10 C23"),
     "C24": ("mc-store", E1, "exhaustive product enumeration (E1) of the real PriceValidator/SmallPrices against the statement in i128, plus exhaustive enumeration of feed-kind pairs through the real execute_deposit instruction",
             "Age/future rules over boundary clocks, timestamps, adjustments, max ages and future excesses at the i64/u64 limits; deviation rule and well-formedness through the validate_one + SmallPrices::from_price pipeline over dense prices, references, factors and multipliers; timestamp-range rule over pairs/triples of validated timestamps. Instruction level: execute_deposit over all pairs of eight feed kinds (good, stale, future, far from the other feed, wrong provider, wrong feed id, inverted, zero) x three operation kinds: executed only with two good feeds; the oracle account as left in memory on return (also of failed, uncommitted instructions) is byte-identical to a cleared oracle.",
             "svm-lite runtime trusted; Chainlink/Pyth feed parsing is C26/C28", "§10 C24"),
@@ -129,7 +129,7 @@ CHECKS = {
             "durations bounded by 10^17 s; stake_glv and claim_gt are not explored", "§10 C38"),
     "C39": ("mc-store", MC, "explicit-state BFS (E2) over trade sequences on the real update_leaderboard, E1 on extend_competition_time, and explicit-state BFS (E3) over real orders executed by the store with the competition program as callback",
             "Every sequence of counted trades by seven traders with three or four volume increments to the stated depth: at most five distinct entries, sorted, latest volumes, filled with the top traders, excluded traders not above the last entry; extensions over end time/duration/cap/trigger time at the i64 limits never move the end earlier nor past max(old end, now + cap). End to end: increase/decrease orders of seven traders with the competition callback, clock advances inside/beyond the merge window and past the end time, late executions: the same board and end-time invariants on the stored accounts after every trade.",
-            "agreement with a reference of the merge-window bookkeeping is counted, not required (not part of the statement)", "§10 C39"),
+            "agreement with a reference of the merge-window bookkeeping is counted, not required (not part of the statement); program part: thorough tier = wide alphabet to depth 4 plus the quick alphabet to depth 5 (memory cap)", "§10 C39"),
     "C19": ("mc-store", E1, "exhaustive enumeration (E1) of the instruction x signer matrix plus explicit-state BFS (E3) of authority/receiver hand-over histories, through the real program entrypoints in the in-process runtime",
             "Every probed privileged store instruction (named in the evidence) is executed with valid accounts by the entitled signer (passes authorisation) and by a stranger, the admin and the single-role holder of each of the other 13 roles (RESTART_ADMIN included, which is entitled only after a cluster restart) (must be rejected; rejected instructions commit nothing); the moving offices (store authority, fee receiver) are explored breadth first as nominate/accept histories by three actors to a fixpoint against a reference. Timelock instructions are covered by C36, market config updates by C20, execute/close by C23.",
             "claims only the instructions listed in the evidence (64: store administration, token map, oracle, markets incl. creation, GT, position-order execution and liquidation, execution of deposits/withdrawals/shifts, keeper maintenance of fee/ADL/closed state, creation of virtual inventories, GLV management, liquidity-provider administration, treasury configuration with role checks by CPI); GLV actions and shifts, joining/leaving virtual inventories, ADL execution, the remaining treasury instructions and competition administration are not probed", "§6 C19"),
